@@ -59,3 +59,12 @@ def govpool_run(nq=150, nt=300, sq=4, st=8, focus=None):
     for k in ("env_quick", "env_thorough"):
         r[k]["VERIF_GOVPOOL"] = "1"
     return r
+
+
+def govamm_run(nq=150, nt=300, sq=4, st=8, focus=None):
+    """history mode in which governance moves one of the amm module's fee parameters (weight-breaking / weight-recovery portions, multiplier)
+    early in the history and now and then again"""
+    r = hist_run(nq, nt, sq, st, focus=focus)
+    for k in ("env_quick", "env_thorough"):
+        r[k]["VERIF_GOVAMM"] = "1"
+    return r
